@@ -27,6 +27,8 @@ package contextscope
 //@   loop 1 step errs[$i] == nil ==> i == prev(i) && len(s.errors) == prev(len(s.errors))
 //@   loop 1 step forall(k, 0 <= k && k < prev(len(s.errors)) ==> s.errors[k] == prev(s.errors[k]))
 //@   trace Stop as STOP
+//@   trace_ensures i != 0 : STOP $
+//@   trace_ensures i == 0 : !STOP
 //@ func (*ContextScope).Stop [C12]
 //@   requires s.done != nil
 //@ func (*ContextScope).Kill [C12]
@@ -45,6 +47,9 @@ package contextscope
 //@   loop 1 step errs[$i] != nil ==> i == prev(i) + 1 && len(scp.errors) == prev(len(scp.errors)) + 1 && scp.errors[len(scp.errors) - 1] == errs[$i]
 //@   loop 1 step errs[$i] == nil ==> i == prev(i) && len(scp.errors) == prev(len(scp.errors))
 //@   loop 1 step forall(k, 0 <= k && k < prev(len(scp.errors)) ==> scp.errors[k] == prev(scp.errors[k]))
+//@   trace Stop as STOP
+//@   trace_ensures i != 0 : STOP $
+//@   trace_ensures i == 0 : !STOP
 //@ func (*Isolated).Stop [C12]
 //@   requires scp.done != nil
 //@ func (*Isolated).Kill [C12]
